@@ -535,6 +535,7 @@ def check_histories(histories, with_model=True):
            "max_stack": 0, "samples": []}
     im = IM.ImplMonitor()
     all_obs = []
+    failing_steps = []          # per history: the scans at which a monitor failed
     try:
         for steps in histories:
             obs = run_impl_history(im, steps)
@@ -544,6 +545,7 @@ def check_histories(histories, with_model=True):
                 for ev in evs:
                     res["events"][ev[0]] += 1
             fails, shadow = monitor_history(steps, obs)
+            failing_steps.append(set(i for _, _, i in fails))
             if shadow:
                 res["nontrivial"] += 1
                 if len(res["samples"]) < 1:
@@ -567,15 +569,19 @@ def check_histories(histories, with_model=True):
     if with_model and histories:
         lines, index = model_lines(histories)
         out = IM.run_model(lines)
-        for steps, obs, idx in zip(histories, all_obs, index):
+        for steps, obs, idx, fsteps in zip(histories, all_obs, index, failing_steps):
             for i, (o, li) in enumerate(zip(obs, idx)):
                 m = model_obs(out[li])
                 if (o[0], impl_exn_string(o[1])) != m:
-                    if len(res["divs"]) < 5:
-                        res["divs"].append({"steps": steps[:i + 1], "step": i,
-                                            "impl": {"store": {k: v for k, v in o[0].items() if k not in RESERVED}, "exn": impl_exn_string(o[1])},
-                                            "model": {"store": {k: v for k, v in m[0].items() if k not in RESERVED}, "exn": m[1]}})
                     res["n_divs"] = res.get("n_divs", 0) + 1
+                    # a divergence at a scan where a monitor failed is already reported as that concrete
+                    # failing input; only the others need a search / a correspondence report
+                    if not any(k <= i for k in fsteps):
+                        res["n_divs_unexplained"] = res.get("n_divs_unexplained", 0) + 1
+                        if len(res["divs"]) < 5:
+                            res["divs"].append({"steps": steps[:i + 1], "step": i,
+                                                "impl": {"store": {k: v for k, v in o[0].items() if k not in RESERVED}, "exn": impl_exn_string(o[1])},
+                                                "model": {"store": {k: v for k, v in m[0].items() if k not in RESERVED}, "exn": m[1]}})
                     break
     return res
 
@@ -820,8 +826,10 @@ def check_documents(texts, with_model=True):
             m = IM.model_read_obs(line)
             if tuple(o) != tuple(m):
                 res["n_divs"] = res.get("n_divs", 0) + 1
-                if len(res["divs"]) < 5:
-                    res["divs"].append({"text": t, "impl": list(o), "model": list(m)})
+                if not check_document(t, o):
+                    res["n_divs_unexplained"] = res.get("n_divs_unexplained", 0) + 1
+                    if len(res["divs"]) < 5:
+                        res["divs"].append({"text": t, "impl": list(o), "model": list(m)})
     for t, o in list(zip(texts, obs))[:3]:
         res["samples"].append({"text": t[:200], "impl": o[0]})
     return res
@@ -907,7 +915,7 @@ def report_all(ctx, fails):
 
 
 def check_tables(ctx):
-    out = ctx.run_model("Monitor", ['{"op":"tables"}'])
+    out = IM.run_model(['{"op":"tables"}'])      # same command as ctx.run_model("Monitor", …), with retry
     model = json.loads(out[0])
     live = IM.live_tables()
     bad = [k for k in live if live[k] != model.get(k)]
@@ -934,11 +942,12 @@ def run(ctx):
         first.append({"kind": "documents", "texts": ctexts})
     tasks, counts = plan(ctx)
     results = [work(t) for t in first] + pool_map(tasks)
-    scans = docs = hist = nontriv = ndivs = 0
+    scans = docs = hist = nontriv = ndivs = nunexpl = 0
     samples = []
     for r in results:
         merge_fails(fails, r["fails"])
         ndivs += r.get("n_divs", 0)
+        nunexpl += r.get("n_divs_unexplained", 0)
         if "documents" in r:
             docs += r["documents"]
             divs_d += r["divs"]
@@ -965,9 +974,10 @@ def run(ctx):
         "families": cov["families"], "document_classes": dict(counts), "event_distribution": dict(cov["events"]),
         "parser_outcome_by_oracle_verdict": dict(cov["parser_outcomes"]), "oracle_verdicts": dict(cov["oracle_verdicts"]),
         "traces_validated_against_impl": hist + docs, "corpus_cases": len(chs) + len(ctexts),
-        "correspondence_divergences": ndivs, "monitor_failures_by_signature": {s: e["count"] for s, e in fails.items()},
+        "correspondence_divergences": ndivs, "correspondence_divergences_without_monitor_failure": nunexpl,
+        "monitor_failures_by_signature": {s: e["count"] for s, e in fails.items()},
         "run_s": round(time.time() - t0, 1)})
-    if ndivs:
+    if nunexpl:
         # a divergence is not a violation by itself: look for a failing input around the diverging cases
         before = set(fails)
         near = {}
@@ -988,11 +998,12 @@ def run(ctx):
             merge_fails(near, check_documents(texts, with_model=False)["fails"])
         new = {s: e for s, e in near.items() if s not in before}
         report_all(ctx, new)
+        ctx.coverage["search_cases"] = len(hs) + (len(texts) if divs_d else 0)
         if not new:
             d = (divs_h + divs_d)[0]
             ctx.report("correspondence:monitor-model",
-                       "model M6 and the real monitor/parser disagree under the C18 observation (%d cases); no monitor "
-                       "failed on the diverging cases beyond the signatures already reported" % ndivs,
+                       "model M6 and the real monitor/parser disagree under the C18 observation (%d cases, %d of them "
+                       "where no monitor failed); the search around them found no failing input" % (ndivs, nunexpl),
                        {"broken": "correspondence Drivers/Monitor.lean vs PolicyDirectoryMonitor / read_policy_from_file",
                         "case": d}, no_input=True)
 
